@@ -173,6 +173,15 @@ def impl(case):
             mid = pd.DataFrame(mid, columns=list(case["labels"]))
         res["new_mid"] = np.asarray(cr.transform(mid), dtype=float)[0].tolist()
     res["again"] = np.asarray(cr.transform(X), dtype=float).T.tolist()
+    # independent of the code under test: numerical rank of the float-centred sensitive block at lstsq's
+    # DOCUMENTED default cut-off eps*max(M,N)*s_max, and its exact rank (Fractions)
+    _, sens = _split(case)
+    S = np.array([case["cols"][j] for j in sens], dtype=float).T
+    Cf = S - S.mean(axis=0)
+    sv = np.linalg.svd(Cf, compute_uv=False)
+    cut = np.finfo(float).eps * max(Cf.shape) * (sv[0] if len(sv) else 0.0)
+    res["float_rank_default_rcond"] = int((sv > cut).sum())
+    res["exact_rank"] = _rank([_centred(case["cols"][j]) for j in sens])
     return res
 
 
@@ -264,7 +273,11 @@ def compare(case, out, model):
     # centring, visible as a blown-up beta_ (exact minimum-norm coefficients of these inputs are O(10)).
     # Everything else -- full-rank inputs, rank-deficient inputs with a sane beta_ -- keeps the plain signature.
     bmax = max([abs(b) for row in out["beta"] for b in row] + [0.0])
-    rd = "-rank-deficient-block" if (model["fitted"] is None and bmax > 1e6) else ""
+    # ... and only when the float-centred block really is numerically full(er) rank at lstsq's documented default
+    # cut-off (computed independently in impl): a changed cut-off or solver that breaks OTHER collinear inputs
+    # is reported under the plain signature.
+    rd = "-rank-deficient-block" if (model["fitted"] is None and bmax > 1e6
+                                     and out.get("float_rank_default_rcond", 0) > out.get("exact_rank", 99)) else ""
     # ---- oracle on the implementation alone -------------------------------------------------
     if out["shape"] != [n, len(use)]:
         v.append((f"{PID}/fit_transform/shape/columns-not-dropped", f"output shape {out['shape']}, expected "
